@@ -9,6 +9,8 @@ Local Open Scope list_scope.
 
 Definition np {A} (p : parser A) := forall i, p i <> Abort APanic.
 Definition sfx {A} (p : parser A) := forall i a r, p i = Ok a r -> exists c, i = c ++ r.
+(* a parser that consumes at least one byte whenever it succeeds *)
+Definition strict {A} (p : parser A) := forall i a r, p i = Ok a r -> length r < length i.
 Definition ebound (n : nat) (e : errs) := Forall (fun ne => fst ne <= n) e.
 Definition epos {A} (p : parser A) := forall i e, p i = Err e -> ebound (length i) e.
 Record good {A} (p : parser A) : Prop := { g_np : np p; g_sfx : sfx p; g_epos : epos p }.
